@@ -564,6 +564,11 @@ func (sp *subProcess) run(ctx context.Context, out tracing.ITracer) {
 					sp.active.Add(1)
 					defer sp.active.Add(-1)
 
+					// subscribe before the inner start events fire, or their
+					// first traces (and a quick cease-flow trace) are missed
+					traces := sp.subTracer.Subscribe()
+					defer sp.subTracer.Unsubscribe(traces)
+
 					if err := sp.startAll(ctx); err != nil {
 						subProcessId := ""
 						if pid, present := sp.element.Id(); present {
@@ -576,8 +581,6 @@ func (sp *subProcess) run(ctx context.Context, out tracing.ITracer) {
 						return
 					}
 
-					traces := sp.subTracer.Subscribe()
-					defer sp.subTracer.Unsubscribe(traces)
 				loop:
 					for {
 						var trace tracing.ITrace
@@ -617,10 +620,12 @@ func (sp *subProcess) NextAction(ctx context.Context, flow Flow) chan IAction {
 	if sp.active.CompareAndSwap(0, 1) {
 		// flow nodes
 		// StartAll cease flow monitor
+		// the monitor watches, and reports on, the sub-process's own tracer:
+		// that is where the inner start events are traced, where the handle
+		// below is registered and where run() waits for the cease-flow trace
 		sender := sp.subTracer.RegisterSender()
-		tracer := sp.wr.tracer
-		go sp.ceaseFlowMonitor(tracer)(ctx, sender)
-		go sp.run(ctx, tracer)
+		go sp.ceaseFlowMonitor(sp.subTracer)(ctx, sender)
+		go sp.run(ctx, sp.wr.tracer)
 	}
 
 	response := make(chan IAction, 1)
